@@ -2,6 +2,7 @@ package main
 
 import (
 	"fmt"
+	"regexp"
 	"go/types"
 	"sort"
 	"strings"
@@ -60,6 +61,10 @@ func (L *Loader) verifyFunc(fn *ssa.Function, spec *FuncSpec) (res *FuncResult) 
 	for i, p := range fn.Params {
 		e.params[p.Name()] = args[i]
 	}
+	if fn.Name() == "init" && fn.Synthetic != "" {
+		// the initialiser body runs once: its guard is still false on entry
+		e.heapSet(st, "G:"+fn.Pkg.Pkg.Path()+".init$guard#0", sBool, "false")
+	}
 	e.entry = st.clone()
 	// preconditions
 	fr0 := &Frame{e: e, fn: fn, vals: map[ssa.Value]Val{}}
@@ -81,6 +86,34 @@ func (L *Loader) verifyFunc(fn *ssa.Function, spec *FuncSpec) (res *FuncResult) 
 		}
 		if len(spec.Requires) > 0 {
 			e.cover("requires", "true", spec.File)
+		}
+	}
+	// package invariants: the ensures clauses of the package initialiser's contract, provided
+	// they only mention package-level variables that nothing but init ever writes
+	if p := pkgOf(fn); p != nil && fn.Name() != "init" {
+		if isp := L.specs.Funcs[p.Pkg.Path()+".init"]; isp != nil {
+			env := e.baseEnv(fr0, st)
+			env.vars = map[string]Val{}
+			for _, en := range isp.Ensures {
+				t, err := env.evalBool(en.E)
+				if err != nil {
+					e.errs = append(e.errs, fmt.Sprintf("%s: %v", en.Line, err))
+					continue
+				}
+				okInv := false
+				for _, m := range reGlobalKey.FindAllStringSubmatch(t, -1) {
+					okInv = true
+					if !L.immutableGlobalKey("G:" + m[1]) {
+						okInv = false
+						e.errs = append(e.errs, fmt.Sprintf("%s: package invariant mentions %s, which is written outside init", en.Line, m[1]))
+						break
+					}
+				}
+				if okInv {
+					e.assume(t)
+					e.flag("package-invariant-from-init: " + en.Src)
+				}
+			}
 		}
 	}
 	e.entry = st.clone()
@@ -115,6 +148,8 @@ func (L *Loader) verifyFunc(fn *ssa.Function, spec *FuncSpec) (res *FuncResult) 
 }
 
 var debugPanics = false
+
+var reGlobalKey = regexp.MustCompile(`H0_G:([^#|]+)#`)
 
 // constrainInput: what holds for every value that enters the function from outside.
 func (e *Exec) constrainInput(v *Val, T types.Type) {
